@@ -1665,7 +1665,7 @@ class ASTCreateTableStatement(ASTStatementBase):
         result += f" LOCATION {self.location}" if self.location is not None else ""
         if len(self.tblproperties) > 0:
             tblproperties_str = ", ".join([config.source(SQLType.HIVE) for config in self.tblproperties])
-            result += f"TBLPROPERTIES ({tblproperties_str})"
+            result += f" TBLPROPERTIES ({tblproperties_str})"
         return result
 
     def _title_str(self, sql_type: SQLType) -> str:
